@@ -190,8 +190,39 @@ def mk_sketchy(rank, dim, full_k):
   return t
 
 
+def t_sketchy_update(ctx, it):
+  """Tearfree Sketchy, the whole _update on a statistics step: EVERY axis sketch goes through _update_axis whatever the
+  gradient is (in particular a zero gradient still discounts l and t by the decay): t' = b*t + s[k]^2 for every axis."""
+  sk_ = it.load_module(SK)
+  f = spec.fresh_int("update_freq", lo=1)
+  b = spec.fresh_real("second_moment_decay")
+  ctx.assume(sym.sand(b > 0, b <= 1))
+  k = 2
+  opts = sk_.Options(rank=k, update_freq=f, second_moment_decay=b)
+  shape = (4, 3)
+  p = T.opaque("p", shape)
+  st0 = sk_._init(opts, p)
+  count = spec.fresh_int("count", lo=0)
+  ctx.assume(count % f == 0)
+  axes = []
+  for a, ax in enumerate(st0.sketches.axes):
+    axes.append(sk_._AxisState(T.opaque(f"V{a}", ax.eigvecs.shape), T.opaque(f"e{a}", ax.eigvals.shape),
+                               T.opaque(f"ie{a}", ax.inv_eigvals.shape), T.asarray(spec.fresh_real(f"tail{a}", lo=0)), T.opaque(f"it{a}", ()),
+                               ax.ema_ggt, ax.svd_result_u, ax.svd_result_s, ax.inv_prev_tail))
+  st = sk_._SketchyState(count=T.asarray(count), sketches=sk_._TensorState(axes))
+  n_svd = len(ctx.ghost.setdefault("svds", []))
+  upd, new = sk_._update(opts, T.opaque("g", shape), st)
+  svds = ctx.ghost["svds"][n_svd:]
+  ctx.require("sketchy._update: one decomposition per axis on a statistics step", len(svds) == len(axes))
+  for a, (old, nw) in enumerate(zip(axes, new.sketches.axes)):
+    x, u, s_, vt = svds[a]
+    c_ = sym.smax(s_.at((k,)), 0.0)
+    ctx.oblige("sketchy._update.post (statistics step): t' = b*t + s[k]^2 on every axis, for EVERY gradient (a zero gradient still decays)",
+               nw.tail.item() == b * old.tail.item() + c_ * c_, detail=f"axis {a}")
+
+
 def tasks(tier):
-  ts = [Task("DS _fd_update_root", t_ds)]
+  ts = [Task("DS _fd_update_root", t_ds), Task("sketchy._update on a statistics step", t_sketchy_update)]
   for rank in (1, 2, 3):
     for dim in range(rank):
       for full_k in (False, True):
